@@ -658,7 +658,11 @@ impl Cw1Scen {
             match rng.below(11) {
                 0 => format!("burn/{}", self.gen_coins(rng, who)),
                 1 => format!("burn/{}", self.gen_small_coin(rng)),
-                2 => format!("wasm/exec/{}/tag{}/{}", rng.pick(&self.pool), rng.below(3), self.gen_small_coin(rng)),
+                2 => {
+                    // now and then the callee is the proxy itself (a self-call arrives with the proxy as sender: C17-18)
+                    let to = if rng.chance(1, 3) { self.env.contract.address.clone() } else { rng.pick(&self.pool).clone() };
+                    format!("wasm/exec/{}/tag{}/{}", to, rng.below(3), self.gen_small_coin(rng))
+                }
                 3 => format!("wasm/clear/{}", rng.pick(&self.pool)),
                 4 => format!("wasm/migrate/{}/{}/m{}", rng.pick(&self.pool), rng.below(9), rng.below(3)),
                 5 => format!("ibc/close/channel-{}", rng.below(3)),
